@@ -582,7 +582,8 @@ def gen_c14(ch, spec):
         for _ in range(ch.choice("wl", [1, 1, 2])):
             ops.insert(ch.index("wl", len(ops) + 1),
                        {"op": "overlap", "side": ch.choice("wl", ["A", "B"]), "dt": ch.choice("wl", [0.0, 0.01, 0.5]),
-                        "first": ch.choice("wl", ["setLocal:offer", "setRemote:offer", "setLocal:implicit"]),
+                        "first": ch.choice("wl", ["setLocal:offer", "setRemote:offer", "setLocal:implicit", "setLocal:offer",
+                                                  "setRemote:offer", "setLocal:implicit", "close"]),
                         "second": ch.choice("wl", ["setLocal:offer", "setRemote:offer", "setLocal:implicit", "createAnswer",
                                                    "createOffer", "close"]),
                         "after": ch.choice("wl", [1, 1, 2, 5])})
@@ -771,6 +772,7 @@ class C14World(PcWorld):
 
         async def run(fn):
             return await fn()
+        descs = tuple(d.sdp if d is not None else None for d in (pc.localDescription, pc.remoteDescription))
         t1 = self.loop.create_task(run(first), context=self.ep[n].ctx)
         for _ in range(op.get("after", 1)):
             await asyncio.sleep(0)
@@ -791,6 +793,20 @@ class C14World(PcWorld):
             if exc is not None and type(exc).__name__ not in ("InvalidStateError", "ValueError", "OperationError"):
                 self.violation("C14", "overlapping-call-raised:%s" % exc_tag(exc), "%s %s of %s/%s: %r" % (
                     n, which, op["first"], op["second"], exc))
+                return
+        if op["first"] == "close":
+            # a negotiation call made once close() has been called - whether or not close() has finished taking the
+            # transports down - is a call after close: InvalidStateError, nothing changed, closed for good
+            self.probes["overlaps_close_first"] += 1
+            if overlapped:
+                self.probes["overlaps_call_made_while_close_suspended"] += 1
+            after = tuple(d.sdp if d is not None else None for d in (pc.localDescription, pc.remoteDescription))
+            if op["second"] != "close" and (type(exc2).__name__ != "InvalidStateError" or after != descs
+                                            or pc.signalingState != "closed") and not self.violations:
+                self.violation("C14", "negotiation-accepted-after-close-was-called:%s" % op["second"],
+                               "%s: %s made %s close() returned: %s; signalingState %s; descriptions %s" % (
+                                   n, op["second"], "before" if overlapped else "after", type(exc2).__name__ if exc2 else "returned",
+                                   pc.signalingState, "changed" if after != descs else "unchanged"))
                 return
         if op["second"] == "close" and exc2 is None:
             self.probes["overlaps_with_close"] += 1
